@@ -503,6 +503,64 @@ def rule_o11(ctx):
         raise AnalysisBroken("only %d message moves between aios found" % n)
 
 
+# ---------------------------------------------------------------------------
+# O12: definite assignment of scalar locals
+
+
+def rule_o12(ctx):
+    r = ctx.rule("C03.O12", "T12", "a local is given a value before it is used: for every pointer / arithmetic local declared without an "
+                 "initialiser, no read of it is reachable from its declaration along a path that passes neither an assignment to it "
+                 "nor a call that is handed its address (paths contradicting a constant-only flag set earlier are not followed) -- "
+                 "an indeterminate pointer that reaches a release, a store into an object or the caller is memory corruption "
+                 "waiting for the input that takes that path (a size of zero, an empty body)", floor=150)
+    prog = ctx.prog
+    n = 0
+    for f in prog.functions:
+        if f.cfg_failed or f.file.endswith("_test.c"):
+            continue
+        un = {}
+        for s in f.sites():
+            if s.node.get("k") == "decls":
+                for d in s.node["d"]:
+                    if d.get("init") is None and not d.get("static") and d.get("sc"):
+                        un[d["n"]] = (s.b, s.i)
+        for v, decl in sorted(un.items()):
+            def is_def(b, i, e, v=v):
+                if e is None:
+                    return False
+                for m in walk(f.expand(e)):
+                    if m.get("k") == "asg" and m.get("op") == "=" and m["lhs"].get("k") == "var" and m["lhs"]["n"] == v:
+                        return True
+                    if m.get("k") == "un" and m.get("op") == "&" and m["e"].get("k") == "var" and m["e"]["n"] == v:
+                        return True
+                return False
+            seen = G.reach_flags(f, (decl[0], decl[1] + 1), blocked=is_def)
+            bad = None
+            for s in f.sites():
+                if (s.b, s.i) not in seen or f.blocks[s.b].elems[s.i] is not s.node:
+                    continue
+                e = f.expand(s.node)
+                if e.get("k") == "decls":
+                    continue
+                for m in walk(e):
+                    if m.get("k") == "var" and m["n"] == v and m.get("vk") == "local":
+                        bad = s
+                        break
+                if bad:
+                    break
+            n += 1
+            if bad is None:
+                r.ob(f, "%s (declared line %s) is assigned on every path to each of its uses" % (v, f.line_of(*decl)))
+            else:
+                path = f.find_path((decl[0], decl[1] + 1), lambda b, i, t=bad: (b, i) == (t.b, t.i), blocked=is_def)
+                ctx.fail(r, f, "%s read without a value" % v, bad.line,
+                         "%s reads the local %s (declared without an initialiser at line %s) at line %s on a path that has not "
+                         "assigned it: %s" % (f.name, v, f.line_of(*decl), bad.line, show(f.expand(bad.node))[:120]),
+                         path=f.path_lines(path))
+    if n < 150:
+        raise AnalysisBroken("only %d uninitialised scalar locals found in the build" % n)
+
+
 def run(ctx):
     ctx.guard(rule_o1)
     ctx.guard(rule_o4)
@@ -511,6 +569,7 @@ def run(ctx):
     ctx.guard(rule_o9)
     ctx.guard(rule_o3)
     ctx.guard(rule_o11)
+    ctx.guard(rule_o12)
     from . import c18
     ctx.guard(c18.rule_r11)      # sized free of the msgq ring: the recorded extent belongs to the storage
     for rr in ctx.rules:
